@@ -1,5 +1,5 @@
 """Gen/Dispatch.lean: the OBSERVED action of ml.load/loads/load_all/loads_all/dump/dumps on every cell of the
-configuration matrix (6 x 4 x 3 x 3 x 2 x 5 path forms = 2160 cells), recorded by spying on the class-level codec methods of the
+configuration matrix (6 x 4 x 3 x 3 x 2 x 6 path forms = 2592 cells), recorded by spying on the class-level codec methods of the
 live repository, plus the observed class-level failures the specification is relative to."""
 import shutil
 import tempfile
@@ -75,7 +75,7 @@ def generate() -> str:
     rows = []
     for c in L.all_cells():
         assert L.cell_index(c) == len(rows)
-        rows.append(f"  {lean_action(actions[c])}{',' if len(rows) < 2159 else ''} -- {len(rows)}: {L.cell_str(c)}")
+        rows.append(f"  {lean_action(actions[c])}{',' if len(rows) < 2591 else ''} -- {len(rows)}: {L.cell_str(c)}")
     triples = ", ".join(f"(.{L.LEAN_OTYPE[o]}, .{L.LEAN_ENTRY[e]}, .{f})" for o, e, f in cr_triples(cr))
     return HEADER.format(name="Dispatch", src="molli/reader.py, molli/writer.py and the class-level codecs") + f"""
 import Molli.Model.Dispatch
@@ -99,7 +99,7 @@ def table : List Action := [
 def observed (c : Cell) : Action := table.getD c.idx Action.missing
 
 /-! obligations -/
-theorem table_complete : table.length = 2160 := by decide +kernel
+theorem table_complete : table.length = 2592 := by decide +kernel
 
 /-- the whole matrix in ONE pass: row by row next to the enumeration `allCells` of the matrix, the observed action is
 the specified action (lifted to `∀ c, observed c = spec classRaises c` by `Lemmas.Dispatch.lookup_of_zip_all`) -/
